@@ -1201,6 +1201,7 @@ class C06(PropCheck):
         docs.quiet()
         TALLY.lines.clear()
         c06_real.regression_section(run)            # corpus first
+        c06_real.css_wide_section(run)              # fixed family
         c06_real.spec_tables_section(run)
         c06_real.pres_hints_section(run)
         precedence_section(run)
